@@ -22,7 +22,10 @@ def models_src(app, present, feats, p_installed):
         out.append('    name = models.CharField(max_length=20)')
         if m == 'A':
             if 'ownM2M' in feats and 'B' in present:
-                out.append("    rel = models.ManyToManyField('B')")
+                if 'customM2M' in feats:
+                    out.append("    rel = models.ManyToManyField('B', db_table='p_links')")
+                else:
+                    out.append("    rel = models.ManyToManyField('B')")
             if 'farM2M' in feats:
                 out.append("    far = models.ManyToManyField('r.C')")
         if m == 'F' and p_installed:
@@ -30,7 +33,7 @@ def models_src(app, present, feats, p_installed):
                 out.append("    a = models.ForeignKey('p.A', on_delete=models.CASCADE, null=True)")
             if 'crossM2M' in feats:
                 out.append("    many = models.ManyToManyField('p.A')")
-        custom = {'B': 'p_a_x', 'D': 'p_a_more'}.get(m)
+        custom = {'B': 'p_a_x', 'D': 'p_a_rel' if 'customM2M' in feats else 'p_a_more'}.get(m)
         if custom:
             out += ['', '    class Meta:', '        db_table = %r' % custom]
         out += ['', '']
